@@ -380,8 +380,10 @@ func (api *API) ImportRoaring(ctx context.Context, indexName, fieldName string, 
 		return newNotFoundError(ErrFieldNotFound)
 	}
 
-	// only set and time fields are supported
-	if field.Type() != FieldTypeSet && field.Type() != FieldTypeTime {
+	// A client may only import set and time fields this way. A forwarded
+	// import (remote) comes from another node, e.g. an anti-entropy repair of
+	// a fragment, which exists for fields of every type.
+	if !remote && field.Type() != FieldTypeSet && field.Type() != FieldTypeTime {
 		return NewBadRequestError(errors.New("roaring import is only supported for set and time fields"))
 	}
 
